@@ -1,6 +1,6 @@
 (* C12 — OSCORE replay protection: a protected request is accepted at most once.
    Only statements here; every proof is [exact <lemma of Proofs/C12.v>]. *)
-From Verif Require Import Lib.Py Lib.Tactics Gen.oscore_replay Model.C12 Proofs.C12.
+From Verif Require Import Lib.Py Lib.Tactics Gen.oscore_replay Model.C12 Proofs.C12 Proofs.C12b.
 Open Scope Z_scope.
 
 (* the translated ReplayWindow refines the set [seen] of no-longer-acceptable numbers *)
@@ -77,4 +77,84 @@ Example C12_doctest :
          IsValid 4; StrikeOut 35; IsValid 4; StrikeOut 36; IsValid 4])
   = [RDone; RBool true; RBool false; RDone; RDone; RDone; RBool false;
      RBool true; RDone; RBool true; RDone; RBool false].
+Proof. vm_compute. reflexivity. Qed.
+
+(* ---------- round 5: histories that interleave requests and responses, nonce reuse, forgeries ---------- *)
+
+(* every step of a mixed history keeps the context well-formed and never un-sees a number *)
+Theorem C12_step_invariant : forall c m, CtxInv c -> pwf m ->
+  CtxInv (fst (pstep c m)) /\ size (fst (pstep c m)) = size c /\
+  echo_recovery (fst (pstep c m)) = echo_recovery c /\
+  (forall k, cseen c k -> cseen (fst (pstep c m)) k).
+Proof. exact pstep_invariant. Qed.
+Print Assumptions C12_step_invariant.
+
+(* at most once per sequence number, for every order and multiplicity of requests AND responses
+   (including responses that initialise the window), forged or not *)
+Theorem C12_accept_at_most_once_mixed : forall ms c n, CtxInv c -> Forall pwf ms ->
+  (paccepted_count n ms (snd (prun c ms)) <= 1)%nat.
+Proof. exact paccept_at_most_once. Qed.
+Print Assumptions C12_accept_at_most_once_mixed.
+
+(* forgeries do not interfere: the final replay state and the fate of every authentic message are
+   those of the history with all forged messages removed — a forgery cannot block the genuine request *)
+Theorem C12_forgeries_do_not_interfere : forall ms c, CtxInv c -> Forall pwf ms ->
+  fst (prun c ms) = fst (prun c (filter pauth ms)) /\
+  map snd (filter (fun mo => pauth (fst mo)) (combine ms (snd (prun c ms)))) = snd (prun c (filter pauth ms)).
+Proof. exact forgeries_do_not_interfere. Qed.
+Print Assumptions C12_forgeries_do_not_interfere.
+
+(* the request's nonce may be reused for the response (RequestIdentifiers.can_reuse_nonce) only if the
+   request passed the replay check before decryption: never for a replayed, an Echo-recovered or an
+   Echo-challenged request; hence at most once per sequence number *)
+Theorem C12_reuse_only_when_fresh : forall c r o, CtxInv c -> 0 <= seqno r ->
+  snd (pstep c (PReq r)) = OReq o true ->
+  o = Accept /\ authentic r = true /\ exists w, window c = Some w /\ seen w (seqno r) = false.
+Proof. exact reuse_only_when_fresh. Qed.
+Print Assumptions C12_reuse_only_when_fresh.
+Theorem C12_reuse_at_most_once : forall ms c n, CtxInv c -> Forall pwf ms ->
+  (preuse_count n ms (snd (prun c ms)) <= 1)%nat.
+Proof. exact preuse_at_most_once. Qed.
+Print Assumptions C12_reuse_at_most_once.
+Theorem C12_accept_fresh_has_reuse : forall c w r, CtxInv c -> window c = Some w -> 0 <= seqno r ->
+  authentic r = true -> seen w (seqno r) = false -> snd (pstep c (PReq r)) = OReq Accept true.
+Proof. exact accept_fresh_has_reuse. Qed.
+Print Assumptions C12_accept_fresh_has_reuse.
+
+(* uninitialised window, full statement for the code as it is: nothing is accepted (and no reusable
+   nonce handed on) until either the Echo value issued by this process comes back, or an AUTHENTIC
+   response carrying the peer's own Partial IV arrives (oscore.py:1408-1422: such a response is AEAD-bound
+   to a request this process sent, which the code takes as freshness proof; see notes/C12.md, O1) *)
+Theorem C12_uninitialised_until_echo_or_bound_response : forall ms c, CtxInv c -> window c = None ->
+  Forall (no_recovery c) ms ->
+  Forall (fun o => match o with OReq Accept _ => False | OReq _ true => False | _ => True end) (snd (prun c ms))
+  /\ window (fst (prun c ms)) = None.
+Proof. exact uninitialised_until_echo_or_bound_response. Qed.
+Print Assumptions C12_uninitialised_until_echo_or_bound_response.
+Theorem C12_response_init_is_freshlyseen : forall c n, CtxInv c -> window c = None -> echo_recovery c <> None -> 0 <= n ->
+  exists w, window (fst (unprotect_response c (Some n) true)) = Some w /\ forall m, seen w m = (m <=? n).
+Proof. exact response_init_is_freshlyseen. Qed.
+Print Assumptions C12_response_init_is_freshlyseen.
+Theorem C12_response_never_touches_initialised : forall c own auth w, window c = Some w ->
+  fst (unprotect_response c own auth) = c.
+Proof. exact response_never_touches_initialised. Qed.
+Print Assumptions C12_response_never_touches_initialised.
+
+(* the mixed-history runner restricted to requests is the request runner of the first part *)
+Theorem C12_prun_requests : forall rs c,
+  fst (prun c (map PReq rs)) = fst (run c rs) /\
+  map (fun o => match o with OReq x _ => x | OResp _ => RejectInvalid end) (snd (prun c (map PReq rs))) = snd (run c rs).
+Proof. exact prun_requests. Qed.
+Print Assumptions C12_prun_requests.
+
+Example C12_mixed_nonvacuous :
+  let c := {| size := 32; window := None; echo_recovery := Some 7 |} in
+  snd (prun c [PReq {| seqno := 5; authentic := true; echo := None |};
+               PResp (Some 9) false; PResp None true; PResp (Some 9) true;
+               PReq {| seqno := 9; authentic := true; echo := None |};
+               PReq {| seqno := 10; authentic := false; echo := None |};
+               PReq {| seqno := 10; authentic := true; echo := None |};
+               PReq {| seqno := 10; authentic := true; echo := None |}])
+  = [OReq RejectEcho false; OResp false; OResp true; OResp true; OReq RejectReplay false;
+     OReq RejectInvalid false; OReq Accept true; OReq RejectReplay false].
 Proof. vm_compute. reflexivity. Qed.
